@@ -103,7 +103,21 @@ impl std::fmt::Display for HarnessErr {
 impl std::error::Error for HarnessErr {}
 
 /// Builds the REAL error value named by a case token.
+///
+/// `<token>#<n>`: the same error with the `n`-th variation of every payload field that no policy reads (the
+/// consistency inside the `DbError`, write type / numfailures / data_present of the failure errors, both
+/// `rejected_by_coordinator` values and all operation types of `RateLimitReached`, error codes, strings, ids, …).
+/// The model drops the selector: a decision that depended on such a field would show up as a disagreement.
 fn parse_err(tok: &str) -> Option<RequestAttemptError> {
+    let (tok, sel) = match tok.split_once('#') {
+        Some((t, n)) => (t, Some(n.parse::<usize>().ok().filter(|n| *n < 1000)?)),
+        None => (tok, None),
+    };
+    let n = sel.unwrap_or(0);
+    let filler_cl = |t: &str| match sel {
+        Some(n) => CLS[n % 11].1,
+        None => filler_cl(t),
+    };
     let p: Vec<&str> = tok.split('.').collect();
     let db = |e: DbError| Some(RequestAttemptError::DbError(e, format!("verif {}", tok)));
     let num = |s: &str| s.parse::<i32>().ok();
@@ -133,7 +147,7 @@ fn parse_err(tok: &str) -> Option<RequestAttemptError> {
                 "stream" => BrokenConnectionErrorKind::UnexpectedStreamId(7),
                 "katimeout" => BrokenConnectionErrorKind::KeepaliveTimeout(std::net::IpAddr::from([127, 0, 0, 1])),
                 "kareq" => BrokenConnectionErrorKind::KeepaliveRequestError(std::sync::Arc::new(HarnessErr)),
-                "orphans" => BrokenConnectionErrorKind::TooManyOrphanedStreamIds(9),
+                "orphans" => BrokenConnectionErrorKind::TooManyOrphanedStreamIds(9 + n as u16),
                 "channel" => BrokenConnectionErrorKind::ChannelError,
                 _ => return None,
             };
@@ -142,25 +156,35 @@ fn parse_err(tok: &str) -> Option<RequestAttemptError> {
         ["bodyext"] => Some(RequestAttemptError::BodyExtensionsParseError(
             FrameBodyExtensionsParseError::NoCompressionNegotiated,
         )),
-        ["resparse"] => Some(RequestAttemptError::CqlResultParseError(CqlResultParseError::UnknownResultId(77))),
+        ["resparse"] => Some(RequestAttemptError::CqlResultParseError(match n % 3 {
+            0 => CqlResultParseError::UnknownResultId(77 + n as i32),
+            1 => CqlResultParseError::ResultIdParseError(low_level()),
+            _ => CqlResultParseError::UnknownResultId(-1),
+        })),
         ["errparse"] => Some(RequestAttemptError::CqlErrorParseError(CqlErrorParseError::ErrorCodeParseError(
             low_level(),
         ))),
-        ["unexpected"] => Some(RequestAttemptError::UnexpectedResponse(CqlResponseKind::Ready)),
+        ["unexpected"] => Some(RequestAttemptError::UnexpectedResponse(match n % 5 {
+            0 => CqlResponseKind::Ready,
+            1 => CqlResponseKind::Error,
+            2 => CqlResponseKind::Authenticate,
+            3 => CqlResponseKind::Supported,
+            _ => CqlResponseKind::Result,
+        })),
         ["repchanged"] => Some(RequestAttemptError::RepreparedIdChanged {
-            statement: "s".to_owned(),
-            expected_id: vec![1],
-            reprepared_id: vec![2],
+            statement: "s".repeat(n % 4),
+            expected_id: vec![1; n % 3],
+            reprepared_id: vec![2; (n + 1) % 3],
         }),
         ["repmissing"] => Some(RequestAttemptError::RepreparedIdMissingInBatch),
         ["paging"] => Some(RequestAttemptError::NonfinishedPagingState),
         ["db", "syntax"] => db(DbError::SyntaxError),
         ["db", "invalid"] => db(DbError::Invalid),
-        ["db", "exists"] => db(DbError::AlreadyExists { keyspace: "k".into(), table: "t".into() }),
+        ["db", "exists"] => db(DbError::AlreadyExists { keyspace: "k".repeat(n % 3), table: "t".repeat((n + 1) % 3) }),
         ["db", "funcfail"] => db(DbError::FunctionFailure {
             keyspace: "k".into(),
             function: "f".into(),
-            arg_types: vec!["int".into()],
+            arg_types: vec!["int".into(); n % 3],
         }),
         ["db", "auth"] => db(DbError::AuthenticationError),
         ["db", "unauthorized"] => db(DbError::Unauthorized),
@@ -170,26 +194,34 @@ fn parse_err(tok: &str) -> Option<RequestAttemptError> {
         ["db", "truncate"] => db(DbError::TruncateError),
         ["db", "readfailure"] => db(DbError::ReadFailure {
             consistency: filler_cl(tok),
-            received: 2,
-            required: 1,
-            numfailures: 1,
-            data_present: false,
+            received: [2, 0, 1, 3, -1, i32::MAX][n % 6],
+            required: [1, 2, 1, 3, 0, 1][n % 6],
+            numfailures: [1, 0, 2, i32::MAX][n % 4],
+            data_present: n % 2 == 1,
         }),
         ["db", "writefailure"] => db(DbError::WriteFailure {
             consistency: filler_cl(tok),
-            received: 1,
-            required: 2,
-            numfailures: 1,
-            write_type: WriteType::BatchLog,
+            received: [1, 0, 2, 3, -1, i32::MAX][n % 6],
+            required: [2, 1, 2, 3, 0, 1][n % 6],
+            numfailures: [1, 0, 2, i32::MAX][n % 4],
+            write_type: if sel.is_none() { WriteType::BatchLog } else { parse_wt(WTS[n % 9])? },
         }),
-        ["db", "unprepared"] => db(DbError::Unprepared { statement_id: bytes::Bytes::from_static(b"deadbeef") }),
+        ["db", "unprepared"] => db(DbError::Unprepared { statement_id: bytes::Bytes::from(vec![0xde; n % 20]) }),
         ["db", "server"] => db(DbError::ServerError),
         ["db", "protocol"] => db(DbError::ProtocolError),
         ["db", "ratelimit"] => db(DbError::RateLimitReached {
-            op_type: OperationType::Write,
-            rejected_by_coordinator: true,
+            op_type: if sel.is_none() {
+                OperationType::Write
+            } else {
+                match n % 3 {
+                    0 => OperationType::Read,
+                    1 => OperationType::Write,
+                    _ => OperationType::Other(n as u8),
+                }
+            },
+            rejected_by_coordinator: sel.is_none() || (n / 3) % 2 == 1,
         }),
-        ["db", "other"] => db(DbError::Other(0x124816)),
+        ["db", "other"] => db(DbError::Other([0x124816, 0, -1, 0x1000, 0x1100, 0x1200, 0x1002, 0x2500, i32::MIN, i32::MAX][n % 10])),
         ["db", "unavailable", alive, required] => db(DbError::Unavailable {
             consistency: filler_cl(tok),
             required: num(required)?,
@@ -544,7 +576,7 @@ fn run_dec(pol: Pol, idem: bool, steps: &str, ctx: &mut Ctx) -> String {
     for s in ops(steps) {
         let Some((c, e)) = s.split_once(':') else { return "bad-case".to_owned() };
         let (Some(cl), Some(err)) = (parse_cl(c), parse_err(e)) else { return "bad-case".to_owned() };
-        if err_name(&err, true) != e {
+        if err_name(&err, true) != e.split('#').next().unwrap_or("") {
             return "bad-case".to_owned(); // non-canonical token (e.g. leading zeros)
         }
         hist.push((cl, err));
@@ -583,6 +615,53 @@ fn run_dec(pol: Pol, idem: bool, steps: &str, ctx: &mut Ctx) -> String {
         out.push(d.name());
     }
     list_or_dash(out, " ")
+}
+
+/// Minimal `tracing` subscriber: `run_request_no_side_effects` wraps every speculative fiber in a span named
+/// "Speculative execution…" (`speculative_execution.rs:179,190`); the innermost entered span of that kind tells
+/// which fiber is calling `run_request_once` (fibers are numbered in creation order; no such span = fiber 0).
+#[derive(Default)]
+struct FiberSpans {
+    state: Mutex<FiberSpansState>,
+}
+#[derive(Default)]
+struct FiberSpansState {
+    next_id: u64,
+    fiber_of_span: std::collections::HashMap<u64, usize>,
+    entered: Vec<u64>,
+}
+impl FiberSpans {
+    fn current_fiber(&self) -> usize {
+        let st = self.state.lock().unwrap();
+        st.entered.iter().rev().find_map(|id| st.fiber_of_span.get(id).copied()).unwrap_or(0)
+    }
+}
+impl tracing::Subscriber for FiberSpans {
+    fn enabled(&self, _m: &tracing::Metadata<'_>) -> bool {
+        true
+    }
+    fn new_span(&self, attrs: &tracing::span::Attributes<'_>) -> tracing::span::Id {
+        let mut st = self.state.lock().unwrap();
+        st.next_id += 1;
+        let id = st.next_id;
+        if attrs.metadata().name().starts_with("Speculative execution") {
+            let n = st.fiber_of_span.len();
+            st.fiber_of_span.insert(id, n);
+        }
+        tracing::span::Id::from_u64(id)
+    }
+    fn record(&self, _: &tracing::span::Id, _: &tracing::span::Record<'_>) {}
+    fn record_follows_from(&self, _: &tracing::span::Id, _: &tracing::span::Id) {}
+    fn event(&self, _: &tracing::Event<'_>) {}
+    fn enter(&self, id: &tracing::span::Id) {
+        self.state.lock().unwrap().entered.push(id.into_u64());
+    }
+    fn exit(&self, id: &tracing::span::Id) {
+        let mut st = self.state.lock().unwrap();
+        if let Some(pos) = st.entered.iter().rposition(|x| *x == id.into_u64()) {
+            st.entered.remove(pos);
+        }
+    }
 }
 
 struct ResumeClock;
@@ -627,7 +706,7 @@ fn run_spec(pol: Pol, idem: bool, w2: &str, outs: &str, ctx: &mut Ctx) -> String
             outcomes.push((None, ms));
         } else {
             let Some(e) = parse_err(o) else { return "bad-case".to_owned() };
-            if err_name(&e, true) != o {
+            if err_name(&e, true) != o.split('#').next().unwrap_or("") {
                 return "bad-case".to_owned();
             }
             outcomes.push((Some(e), ms));
@@ -639,8 +718,11 @@ fn run_spec(pol: Pol, idem: bool, w2: &str, outs: &str, ctx: &mut Ctx) -> String
         max_retry_count: m,
         retry_interval: std::time::Duration::from_millis(100),
     };
-    let log: RefCell<Vec<(usize, Consistency)>> = RefCell::new(Vec::new());
+    let log: RefCell<Vec<(usize, usize, Consistency)>> = RefCell::new(Vec::new());
+    let finished: RefCell<Vec<bool>> = RefCell::new(Vec::new());
     let calls = Cell::new(0usize);
+    let spans = Arc::new(FiberSpans::default());
+    let dispatch = tracing::Dispatch::new(ArcSubscriber(Arc::clone(&spans)));
     let result = ENV.with(|env| {
         let params = hooks::ExecParams {
             is_idempotent: idem,
@@ -652,7 +734,8 @@ fn run_spec(pol: Pol, idem: bool, w2: &str, outs: &str, ctx: &mut Ctx) -> String
             request_timeout: None,
         };
         let run_once = |target: usize, cl: Consistency| {
-            log.borrow_mut().push((target, cl));
+            log.borrow_mut().push((spans.current_fiber(), target, cl));
+            finished.borrow_mut().push(false);
             let k = calls.get();
             calls.set(k + 1);
             let (res, ms): (Result<(), RequestAttemptError>, u64) = match outcomes.get(k) {
@@ -660,17 +743,24 @@ fn run_spec(pol: Pol, idem: bool, w2: &str, outs: &str, ctx: &mut Ctx) -> String
                 Some((None, ms)) => (Ok(()), *ms),
                 None => (Ok(()), 7),
             };
+            let finished = &finished;
             async move {
                 tokio::time::sleep(std::time::Duration::from_millis(ms)).await;
+                finished.borrow_mut()[k] = true;
                 res
             }
         };
-        env.rt.block_on(async {
-            tokio::time::pause();
-            let _resume = ResumeClock;
-            hooks::run_request_calls(params, &env.conn, plan.clone(), run_once).await
+        tracing::dispatcher::with_default(&dispatch, || {
+            env.rt.block_on(async {
+                tokio::time::pause();
+                let _resume = ResumeClock;
+                hooks::run_request_calls(params, &env.conn, plan.clone(), run_once).await
+            })
         })
     });
+    let finished = finished.into_inner();
+    let fiber_log = log.into_inner();
+    let log: RefCell<Vec<(usize, Consistency)>> = RefCell::new(fiber_log.iter().map(|(_, t, c)| (*t, *c)).collect());
     let attempts = log.into_inner();
     let n = attempts.len();
     let sessions = rec.lock().unwrap().sessions;
@@ -706,7 +796,45 @@ fn run_spec(pol: Pol, idem: bool, w2: &str, outs: &str, ctx: &mut Ctx) -> String
         Ok(hooks::ExecOutcome::IgnoredWriteError(_)) => "ignored",
         Err(_) => "err",
     };
-    format!("N={} S={} R={}", n, sessions, r)
+    // every attempt in global `run_request_once` call order: fiber, target, consistency, finished / cancelled in flight
+    let a = list_or_dash(
+        fiber_log
+            .iter()
+            .zip(finished.iter())
+            .map(|((f, t, c), fin)| format!("{}:{}:{}:{}", f, t, cl_name(*c), if *fin { '+' } else { '-' }))
+            .collect(),
+        ",",
+    );
+    if fiber_log.iter().any(|(f, _, _)| *f >= fibers) {
+        ctx.fail(format!("an attempt was made by fiber {} but at most {} fiber(s) may run", fiber_log.iter().map(|x| x.0).max().unwrap_or(0), fibers));
+    }
+    format!("N={} S={} R={} A={}", n, sessions, r, a)
+}
+
+/// `Arc<FiberSpans>` as a subscriber (the harness keeps a handle to ask for the current fiber).
+struct ArcSubscriber(Arc<FiberSpans>);
+impl tracing::Subscriber for ArcSubscriber {
+    fn enabled(&self, m: &tracing::Metadata<'_>) -> bool {
+        self.0.enabled(m)
+    }
+    fn new_span(&self, a: &tracing::span::Attributes<'_>) -> tracing::span::Id {
+        self.0.new_span(a)
+    }
+    fn record(&self, a: &tracing::span::Id, b: &tracing::span::Record<'_>) {
+        self.0.record(a, b)
+    }
+    fn record_follows_from(&self, a: &tracing::span::Id, b: &tracing::span::Id) {
+        self.0.record_follows_from(a, b)
+    }
+    fn event(&self, e: &tracing::Event<'_>) {
+        self.0.event(e)
+    }
+    fn enter(&self, id: &tracing::span::Id) {
+        self.0.enter(id)
+    }
+    fn exit(&self, id: &tracing::span::Id) {
+        self.0.exit(id)
+    }
 }
 
 /// `pol = None`: the scripted test policy (`runx`), each failing outcome is written `<err>~<decision>`.
@@ -741,7 +869,7 @@ fn run_exec(pol: Option<Pol>, idem: bool, clplan: &str, outs: &str, ctx: &mut Ct
                 o
             };
             let Some(e) = parse_err(o) else { return "bad-case".to_owned() };
-            if err_name(&e, true) != o {
+            if err_name(&e, true) != o.split('#').next().unwrap_or("") {
                 return "bad-case".to_owned();
             }
             outcomes.push(Some(e));
@@ -983,6 +1111,22 @@ fn err_classes(rng: &mut Rng) -> Vec<String> {
     for wt in WTS {
         for c in 0..6 {
             v.push(format!("db.writetimeout.{}.{}.{}", i32_class(rng, c), small_req(rng), wt));
+        }
+    }
+    // payload fields no policy reads: every variation for the payload-heavy kinds, a random one for half of the rest
+    for t in v.iter_mut() {
+        if rng.bool() {
+            *t = format!("{}#{}", t, rng.below(40));
+        }
+    }
+    for kind in ["db.ratelimit", "db.readfailure", "db.writefailure", "db.other", "unexpected", "resparse"] {
+        for n in 0..(if kind == "db.writefailure" { 9 } else { 6 }) {
+            v.push(format!("{}#{}", kind, n));
+        }
+    }
+    for kind in ["db.exists", "db.funcfail", "db.unprepared", "repchanged", "broken.orphans"] {
+        for n in 0..3 {
+            v.push(format!("{}#{}", kind, n));
         }
     }
     v
